@@ -359,8 +359,18 @@ func (x *fnCtx) runInstrs(st *State, b *ssa.BasicBlock, from int) {
 			}
 			st2 := st.clone()
 			st.assume(c)
-			x.runBlock(st, tb, b, false)
 			st2.assume(Not(c))
+			// cover: the body of the loop whose header this is must be reachable under the
+			// assumed invariants (guards against invariants that make the loop vacuous)
+			if fr.isTop && !x.collecting && x.curHeader == b && strings.HasPrefix(st.from, "loop ") && len(st.frames) == 1 {
+				lb := x.loopBlocks(b)
+				if lb[tb] && !lb[fb] {
+					x.vacuityCheck(st, strings.Replace(st.from, " ", "", 1)+".body")
+				} else if lb[fb] && !lb[tb] {
+					x.vacuityCheck(st2, strings.Replace(st.from, " ", "", 1)+".body")
+				}
+			}
+			x.runBlock(st, tb, b, false)
 			x.runBlock(st2, fb, b, false)
 			return
 		case *ssa.Jump:
